@@ -264,15 +264,15 @@ Definition layer_flow (k : lkind) (data : list Z) : outcome flow :=
     if (n <? 40)%nat then empty_flow EndpointIPv6
     else if nthZ data 6 =? 0 then Err 98   (* hop-by-hop header decoding (ip6.go:239-262) is not modelled *)
     else table_flow k data
-  | LLinuxSLL =>                       (* linux_sll.go:84-97: uint16 arithmetic AddrLen+6; data[6:hi] *)
+  | LLinuxSLL =>                       (* linux_sll.go (repaired): AddrLen+6 computed in int and checked against len(data) *)
     if (n <? 16)%nat then Err 1 else
-    let hi := (be16 data 4 + 6) mod 65536 in
-    if (hi <? 6) || (Z.of_nat n <? hi) then Panic 11
+    let hi := be16 data 4 + 6 in
+    if (Z.of_nat n <? hi) then Err 1
     else new_flow EndpointMAC (trunc16 (slice data 6 (Z.to_nat hi))) []
-  | LLinuxSLL2 =>                      (* linux_sll2.go:161-174: data[12:20][:AddrLength], cap = n-12 *)
+  | LLinuxSLL2 =>                      (* linux_sll2.go (repaired): 12+AddrLength checked against len(data) *)
     if (n <? 20)%nat then Err 1 else
     let al := nthZ data 11 in
-    if (Z.of_nat n - 12 <? al) then Panic 12
+    if (Z.of_nat n - 12 <? al) then Err 1
     else new_flow EndpointMAC (trunc16 (slice data 12 (12 + Z.to_nat al))) []
   | LPPP =>                            (* ppp.go:39-68 (repaired: lengths checked before indexing) *)
     let hp := (2 <=? n)%nat && (nthZ data 0 =? 255) && (nthZ data 1 =? 3) in
